@@ -151,13 +151,18 @@ class C06(runner.Check):
 					max(1, total - 1), 32, r.randint(1, total + 1), r.randint(1, total + 1)]
 				op.update(idx=idx, batch_size=r.choice(cands),
 					mode=r.wchoice(["processed", "hypothetical", "raw"], [3, 2, 2]),
-					refs=r.wchoice(["gen", "tensor"], [3, 1]),
+					refs=r.wchoice(["gen", "tensor", "tensor_tiny"], [6, 2, 1]),
+					tiny_eps=r.choice([2e-6, 5e-6, 1e-5, 1e-4]),
 					return_references=r.chance(0.4), thread=r.chance(0.12),
 					seed_type=r.wchoice(["int", "numpy.int64", "numpy.int32"], [6, 1, 1]),
 					xview=r.wchoice(["contig", "strided"], [4, 1]),
 					args_as=r.choice(["tuple", "list"]))
-				if op["refs"] == "tensor":
+				if op["refs"] != "gen":
 					op["return_references"] = False
+				if r.chance(0.25):
+					op["interfere"] = {"points": sorted(set(r.randint(1, 400)
+						for _ in range(r.randint(1, 3)))), "what": r.choice(["np_draw",
+						"np_seed", "torch_seed"])}
 				if kind == "marg":
 					op["mode"] = r.choice(["processed", "hypothetical"])
 					op["refs"] = "gen"
@@ -325,8 +330,34 @@ class C06(runner.Check):
 					if a_s is not None and op.get("args_as") == "list":
 						a_s = list(a_s)
 					refs = None
+					want_rows = None
 					if op["refs"] == "tensor":
 						refs = torch.stack([canon_refs[i] for i in idx])
+					elif op["refs"] == "tensor_tiny":
+						# references a hair away from the input: |delta_in| of the rescale
+						# rule lands in the 1e-6 .. 1e-4 range, close to its switch
+						eps = op["tiny_eps"]
+						tiny, want_rows, bad_world = {}, {}, None
+						for i in sorted(set(idx)):
+							g = torch.Generator().manual_seed(world["xseed"] % 100003 + 17 * i)
+							tiny[i] = X[i][None] + eps * torch.randn(ns, 4, L, generator=g,
+								dtype=dt)
+							c2 = _Conditioning()
+							m_i = mw.clone_model(pristine)
+							c2.observe(m_i)
+							a_i = None if args is None else tuple(a[i:i + 1] for a in args)
+							try:
+								want_rows[i] = self._dls(m_i, X[i:i + 1], a_i, op["mode"], world,
+									refs=tiny[i][None], batch_size=ns)[0]
+							except Exception:
+								bad_world = "canonical run raises"
+							if c2.reason:
+								bad_world = c2.reason
+						if bad_world:
+							out.bump("op.skipped_ill_conditioned")
+							continue
+						refs = torch.stack([tiny[i] for i in idx])
+						out.bump("probe.tiny_delta_references")
 					bs = op["batch_size"]
 					if perturbed:
 						out.bump("probe.dls_after_perturbation")
@@ -360,10 +391,26 @@ class C06(runner.Check):
 										random_state=world["random_state"], warning_threshold=1e9))
 								box["res"] = yb
 							else:
-								box["res"] = self._dls(shared, Xs, a_s, op["mode"], world,
+								run = lambda: self._dls(shared, Xs, a_s, op["mode"], world,
 									refs=refs, batch_size=bs,
 									return_references=op["return_references"],
 									seed_type=op.get("seed_type", "int"))
+								itf = op.get("interfere")
+								if itf:
+									from engines.preempt import run_with_interference
+
+									def interfere(k):
+										if itf["what"] == "np_draw":
+											numpy.random.rand(3)
+										elif itf["what"] == "np_seed":
+											numpy.random.seed(k * 7919 % 100003)
+										else:
+											torch.manual_seed(k * 31)
+									box["res"], npts, fired = run_with_interference(run, "tangermeme",
+										itf["points"], interfere)
+									box["fired"] = fired
+								else:
+									box["res"] = run()
 						except BaseException as e:
 							box["exc"] = e
 					if op.get("thread"):
@@ -372,6 +419,8 @@ class C06(runner.Check):
 						out.bump("probe.call_from_other_thread")
 					else:
 						call()
+					if box.get("fired"):
+						out.bump("probe.interference_inside_call", len(box["fired"]))
 					key = {"kind": kind, "mode": op["mode"], "refs": op["refs"]}
 					desc = "op %d %s(idx=%r, batch_size=%d, n_shuffles=%d, mode=%s, refs=%s, " \
 						"random_state as %s%s)" % (oi, kind, idx, bs, ns, op["mode"], op["refs"],
@@ -396,7 +445,7 @@ class C06(runner.Check):
 						break
 					bad = None
 					for p, i in enumerate(idx):
-						want = canon[op["mode"]][i]
+						want = canon[op["mode"]][i] if want_rows is None else want_rows[i]
 						scale = float(want.abs().max()) + 1e-30
 						err = float((res[p].to(torch.float64) - want.to(torch.float64))
 							.abs().max())
